@@ -18,6 +18,7 @@ import (
 	"os"
 	"path/filepath"
 	"strings"
+	"sync"
 	"unicode"
 	"unicode/utf8"
 
@@ -287,7 +288,38 @@ func c14OutputIssues(in, out string) (issues [][2]string) {
 
 // c14CheckQuery runs ValidateQuery on q and applies every clause. It returns
 // the code's verdict for callers that need it.
+var c14Calls int
+
+// c14Neighbours calls the other exported functions of the validation package on the same text: in a process, query
+// validation runs between path, file-name, log and input sanitising, and must not depend on whether they ran before.
+func c14Neighbours(ctx *Ctx, q string) {
+	defer func() { _ = recover() }() // their own behaviour is not this property's business
+	switch c14Calls / 61 % 8 {
+	case 0:
+		validation.SanitizeFilename(q)
+	case 1:
+		validation.ValidateAndSanitizeUserInput(q, []string{"filename", "query", "path", "general", "log", ""}[c14Calls/488%6])
+	case 2:
+		validation.SanitizePath(q)
+	case 3:
+		validation.SanitizeInput(q)
+	case 4:
+		validation.SanitizeLogData(q)
+	case 5:
+		_ = validation.ValidatePath(q)
+	case 6:
+		_ = validation.ValidateDatabasePath(q)
+	default:
+		validation.ValidateLimit(len(q))
+	}
+	ctx.R.Path("calls-to-neighbouring-validation-functions", 1)
+}
+
 func c14CheckQuery(ctx *Ctx, gen string, i int, q string) {
+	c14Calls++
+	if c14Calls%61 == 1 {
+		c14Neighbours(ctx, q)
+	}
 	ctx.R.Begin(c14MkCase(gen, i, q, false))
 	ctx.R.Eval(1)
 	ctx.R.Path(gen, 1)
@@ -638,6 +670,76 @@ func engineValidate(ctx *Ctx) {
 	}
 	for i, n := 0, ctx.N(8000, 400000); i < n; i++ {
 		c14CheckQuery(ctx, "invalid-heavy", i, c14InvalidHeavy(r, a))
+	}
+	c14Concurrent(ctx, r, a)
+}
+
+// c14Concurrent: the verdict and the returned text for a string are the same when several goroutines validate at once
+// (a pure function of the byte string has no shared scratch state).
+func c14Concurrent(ctx *Ctx, r *rand.Rand, a c14Alpha) {
+	n := ctx.Pick(3000, 30000)
+	qs := make([]string, n)
+	type res struct {
+		out string
+		ok  bool
+	}
+	want := make([]res, n)
+	for i := range qs {
+		switch i % 3 {
+		case 0:
+			qs[i] = c14Random(r, a)
+		case 1:
+			qs[i] = c14Boundary(r, a)
+		default:
+			qs[i] = c14InvalidHeavy(r, a)
+		}
+		o, err := validation.ValidateQuery(qs[i])
+		want[i] = res{o, err == nil}
+	}
+	const G = 8
+	type mm struct {
+		i   int
+		got res
+		pan string
+	}
+	bad := make(chan mm, G)
+	var wg sync.WaitGroup
+	for g := 0; g < G; g++ {
+		wg.Add(1)
+		go func(g int) {
+			defer wg.Done()
+			for k := 0; k < n; k++ {
+				i := (k*7 + g*131) % n
+				var got res
+				pan := ""
+				func() {
+					defer func() {
+						if e := recover(); e != nil {
+							pan = fmt.Sprint(e)
+						}
+					}()
+					o, err := validation.ValidateQuery(qs[i])
+					got = res{o, err == nil}
+				}()
+				if pan != "" || got != want[i] {
+					select {
+					case bad <- mm{i, got, pan}:
+					default:
+					}
+					return
+				}
+			}
+		}(g)
+	}
+	wg.Wait()
+	close(bad)
+	ctx.R.Eval(int64(n))
+	ctx.R.Path("concurrent-validations", int64(n*G))
+	for b := range bad {
+		cs := c14MkCase("concurrent", b.i, qs[b.i], true)
+		d := fmt.Sprintf("validated alone: accepted=%v %s; validated while 7 other goroutines validate: accepted=%v %s %s", want[b.i].ok, vlib.Q(vlib.Trunc(want[b.i].out, 60)), b.got.ok, vlib.Q(vlib.Trunc(b.got.out, 60)), b.pan)
+		ctx.R.Violate(vlib.Violation{Property: "C14", Clause: "accept-mismatch", Path: "ValidateQuery/concurrent", Detail: d, Witness: cs})
+		break
 	}
 }
 
